@@ -111,7 +111,7 @@ def tokRes {κ : Type} (ctl : Controller κ) (g : κ) (t : Token) : Except Err U
 section specs
 variable {κ : Type} (ctl : Controller κ)
 
-theorem tokenProduced_spec (d : Disp κ) (t : Token) :
+theorem tokenProduced_vspec (d : Disp κ) (t : Token) :
     (Disp.tokenProduced ctl d t).2 = tokRes ctl d.ctl t ∧
     (Disp.tokenProduced ctl d t).1.ctl = (ctl.token d.ctl t).1 ∧
     (Disp.tokenProduced ctl d t).1.view = d.view := by
@@ -124,7 +124,7 @@ theorem tokenProduced_spec (d : Disp κ) (t : Token) :
   cases herr : (ctl.token d.ctl t).2.err <;>
     (dsimp only; refine ⟨rfl, ?_, ?_⟩ <;> simp only [(h2 _ _).1, (h2 _ _).2, (h1 _ _).1, (h1 _ _).2] <;> rfl)
 
-theorem flushPendingText_spec (d : Disp κ) :
+theorem flushPendingText_vspec (d : Disp κ) :
     (d.textPending = false ∧ d.flushPendingText ctl = (d, .ok ())) ∨
     (d.textPending = true ∧
       (d.flushPendingText ctl).2 = tokRes ctl d.ctl (.text [] d.lastTextType true ⟨d.textPendingStart, d.textPendingStart⟩) ∧
@@ -136,14 +136,14 @@ theorem flushPendingText_spec (d : Disp κ) :
   | true =>
     right
     simp only [if_true]
-    obtain ⟨a, b, c⟩ := tokenProduced_spec ctl { d with textPending := false }
+    obtain ⟨a, b, c⟩ := tokenProduced_vspec ctl { d with textPending := false }
       (.text [] d.lastTextType true ⟨d.textPendingStart, d.textPendingStart⟩)
     exact ⟨by first | rfl | trivial, a, b, c⟩
 
 /-- the bounds `emit_chunk_before_lexeme` needs -/
 def Disp.before {κ : Type} (d : Disp κ) (inp : Bytes) (raw : Range) : Prop := d.rcs ≤ raw.start ∧ raw.start ≤ inp.length
 
-theorem emitChunkBefore_spec (d : Disp κ) (inp : Bytes) (raw : Range) :
+theorem emitChunkBefore_vspec (d : Disp κ) (inp : Bytes) (raw : Range) :
     (¬ d.before inp raw ∧ IsPanic (d.emitChunkBefore inp raw)) ∨
     (d.before inp raw ∧ ∃ e, d.emitChunkBefore inp raw = .ok e ∧ e.ctl = d.ctl ∧ e.view = { d.view with rcs := raw.start }) := by
   unfold Disp.emitChunkBefore Disp.before checkedSlice
@@ -156,25 +156,25 @@ theorem emitChunkBefore_spec (d : Disp κ) (inp : Bytes) (raw : Range) :
     rw [if_neg hb]
     exact ⟨hb, _, rfl, by decide⟩
 
-theorem flushEncodingChange_spec (d : Disp κ) : d.flushEncodingChange.ctl = d.ctl ∧ d.flushEncodingChange.view = d.view := by
+theorem flushEncodingChange_vspec (d : Disp κ) : d.flushEncodingChange.ctl = d.ctl ∧ d.flushEncodingChange.view = d.view := by
   unfold Disp.flushEncodingChange
   (repeat' split) <;> exact ⟨rfl, rfl⟩
 
-theorem emitToken_spec (d : Disp κ) (inp : Bytes) (raw : Range) (tok : Token) :
+theorem emitToken_vspec (d : Disp κ) (inp : Bytes) (raw : Range) (tok : Token) :
     (¬ d.before inp raw ∧ IsPanic (d.emitToken ctl inp raw tok).2) ∨
     (d.before inp raw ∧ (d.emitToken ctl inp raw tok).2 = tokRes ctl d.ctl tok ∧
       (d.emitToken ctl inp raw tok).1.ctl = (ctl.token d.ctl tok).1 ∧
       (d.emitToken ctl inp raw tok).1.view =
         { d.view with rcs := (match tokRes ctl d.ctl tok with | .ok _ => raw.end | .error _ => raw.start) }) := by
   unfold Disp.emitToken
-  rcases emitChunkBefore_spec d inp raw with ⟨hb, s, hs, hne⟩ | ⟨hb, e, he, hc, hv⟩
+  rcases emitChunkBefore_vspec d inp raw with ⟨hb, s, hs, hne⟩ | ⟨hb, e, he, hc, hv⟩
   · left
     rw [hs]
     exact ⟨hb, s, rfl, hne⟩
   · right
     rw [he]
     simp only [DRes.ofExcept, DRes.bind]
-    obtain ⟨a, b, c⟩ := tokenProduced_spec ctl e tok
+    obtain ⟨a, b, c⟩ := tokenProduced_vspec ctl e tok
     rw [hc] at a b
     rw [hv] at c
     generalize Disp.tokenProduced ctl e tok = tp at a b c ⊢
@@ -187,13 +187,13 @@ theorem emitToken_spec (d : Disp κ) (inp : Bytes) (raw : Range) (tok : Token) :
     | ok u =>
       dsimp only
       rw [← a, hr]
-      obtain ⟨f1, f2⟩ := flushEncodingChange_spec ({ tp.1 with rcs := raw.end } : Disp κ)
+      obtain ⟨f1, f2⟩ := flushEncodingChange_vspec ({ tp.1 with rcs := raw.end } : Disp κ)
       rw [f1, f2]
       refine ⟨rfl, b, ?_⟩
       have : Disp.view ({ tp.1 with rcs := raw.end } : Disp κ) = { tp.1.view with rcs := raw.end } := rfl
       rw [this, c]
 
-theorem produceText_spec (d : Disp κ) (inp : Bytes) (lx : NonTagLexeme) (tt : TextType) :
+theorem produceText_vspec (d : Disp κ) (inp : Bytes) (lx : NonTagLexeme) (tt : TextType) :
     (checkedSlice inp lx.raw = none ∧ IsPanic (d.produceText ctl inp lx tt).2) ∨
     (∃ raw, checkedSlice inp lx.raw = some raw ∧
       ((¬ d.before inp lx.raw ∧ IsPanic (d.produceText ctl inp lx tt).2) ∨
@@ -211,14 +211,14 @@ theorem produceText_spec (d : Disp κ) (inp : Bytes) (lx : NonTagLexeme) (tt : T
     right
     refine ⟨raw, rfl, ?_⟩
     dsimp only
-    rcases emitChunkBefore_spec d inp lx.raw with ⟨hb, s, hs', hne⟩ | ⟨hb, e, he, hc, hv⟩
+    rcases emitChunkBefore_vspec d inp lx.raw with ⟨hb, s, hs', hne⟩ | ⟨hb, e, he, hc, hv⟩
     · left
       rw [hs']
       exact ⟨hb, s, rfl, hne⟩
     · right
       rw [he]
       simp only [DRes.ofExcept, DRes.bind]
-      obtain ⟨a, b, c⟩ := tokenProduced_spec ctl { e with lastTextType := tt } (.text raw tt false (srcOf lx.prevConsumed lx.raw))
+      obtain ⟨a, b, c⟩ := tokenProduced_vspec ctl { e with lastTextType := tt } (.text raw tt false (srcOf lx.prevConsumed lx.raw))
       have hv' : Disp.view ({ e with lastTextType := tt } : Disp κ) = { d.view with ltt := tt, rcs := lx.raw.start } := by
         have : Disp.view ({ e with lastTextType := tt } : Disp κ) = { e.view with ltt := tt } := rfl
         rw [this, hv]
@@ -428,9 +428,9 @@ theorem flush_obs {d' : Disp (γ × Flags)} {d : Disp γ} (h : ObsR d' d) :
     ObsR (d'.flushPendingText (withObs H o)).1 (d.flushPendingText H).1 ∧
     (d.flushPendingText H).1.textPending = false ∧ (d'.flushPendingText (withObs H o)).1.textPending = false := by
   have hc := h.ctl
-  rcases flushPendingText_spec H d with ⟨hd, he⟩ | ⟨hd, hres, hctl, hview⟩
+  rcases flushPendingText_vspec H d with ⟨hd, he⟩ | ⟨hd, hres, hctl, hview⟩
   · rw [he]
-    rcases flushPendingText_spec (withObs H o) d' with ⟨hd', he'⟩ | ⟨hd', hres', hctl', hview'⟩
+    rcases flushPendingText_vspec (withObs H o) d' with ⟨hd', he'⟩ | ⟨hd', hres', hctl', hview'⟩
     · rw [he']; exact ⟨rfl, h, hd, hd'⟩
     · have hft : d.flags.text = false := h.tp' hd hd'
       rw [hc] at hres' hctl'
@@ -443,7 +443,7 @@ theorem flush_obs {d' : Disp (γ × Flags)} {d : Disp γ} (h : ObsR d' d) :
       · have : (d'.flushPendingText (withObs H o)).1.textPending = (d'.flushPendingText (withObs H o)).1.view.tp := rfl
         rw [this, hview']
   · obtain ⟨t1, t2, t3, t4⟩ := h.tp hd
-    rcases flushPendingText_spec (withObs H o) d' with ⟨hd', he'⟩ | ⟨hd', hres', hctl', hview'⟩
+    rcases flushPendingText_vspec (withObs H o) d' with ⟨hd', he'⟩ | ⟨hd', hres', hctl', hview'⟩
     · rw [show d'.view.tp = d'.textPending from rfl, hd'] at t1; cases t1
     · have e2 : d'.lastTextType = d.lastTextType := t3
       have e3 : d'.textPendingStart = d.textPendingStart := t2
@@ -475,10 +475,10 @@ theorem emitToken_both {fS : Flags} {d' : Disp (γ × Flags)} {d : Disp γ} (h :
       ObsR0 (fS.after t) (d'.emitToken (withObs H o) inp raw t).1 (d.emitToken H inp raw t).1 ∧
       (d.emitToken H inp raw t).1.flags = d.flags) := by
   have hc := h.ctl
-  rcases emitToken_spec (withObs H o) d' inp raw t with ⟨_, hp⟩ | ⟨hb', hres', q1, q2⟩
+  rcases emitToken_vspec (withObs H o) d' inp raw t with ⟨_, hp⟩ | ⟨hb', hres', q1, q2⟩
   · exact Or.inl hp
   · right
-    rcases emitToken_spec H d inp raw t with ⟨hnb, _⟩ | ⟨hb, hres, p1, p2⟩
+    rcases emitToken_vspec H d inp raw t with ⟨hnb, _⟩ | ⟨hb, hres, p1, p2⟩
     · exact absurd (before_mono h hb') hnb
     · rw [hc, tokRes_wants _ _ _ hw] at hres' q2
       rw [hc, withObs_token_wants _ _ _ hw] at q1
@@ -491,7 +491,7 @@ theorem emitToken_only {fS : Flags} {d' : Disp (γ × Flags)} {d : Disp γ} (h :
     IsPanic (d'.emitToken (withObs H o) inp raw t).2 ∨
     ((d'.emitToken (withObs H o) inp raw t).2 = .ok () ∧ ObsR0 fS (d'.emitToken (withObs H o) inp raw t).1 d) := by
   have hc := h.ctl
-  rcases emitToken_spec (withObs H o) d' inp raw t with ⟨_, hp⟩ | ⟨hb', hres', q1, q2⟩
+  rcases emitToken_vspec (withObs H o) d' inp raw t with ⟨_, hp⟩ | ⟨hb', hres', q1, q2⟩
   · exact Or.inl hp
   · right
     rw [hc, tokRes_skip _ _ _ hw] at hres' q2
@@ -678,12 +678,12 @@ theorem produceText_obs {d' : Disp (γ × Flags)} {d : Disp γ} (h : ObsR d' d) 
     have : d'.flags.text = true := by rw [hfl']; simp [Flags.join, hfT]
     rw [this]
     simp only [if_true]
-    rcases produceText_spec (withObs H o) d' inp lx tt with ⟨_, hp⟩ | ⟨raw, hraw, hrest'⟩
+    rcases produceText_vspec (withObs H o) d' inp lx tt with ⟨_, hp⟩ | ⟨raw, hraw, hrest'⟩
     · exact Or.inl hp
     · rcases hrest' with ⟨_, hp⟩ | ⟨hb', hres', q1, q2⟩
       · exact Or.inl hp
       · right
-        rcases produceText_spec H d inp lx tt with ⟨hn, _⟩ | ⟨raw2, hraw2, hrest⟩
+        rcases produceText_vspec H d inp lx tt with ⟨hn, _⟩ | ⟨raw2, hraw2, hrest⟩
         · rw [hraw] at hn; cases hn
         · rw [hraw] at hraw2
           simp only [Option.some.injEq] at hraw2
@@ -715,7 +715,7 @@ theorem produceText_obs {d' : Disp (γ × Flags)} {d : Disp γ} (h : ObsR d' d) 
     | false => simp only [Bool.false_eq_true, if_false]; right; exact ⟨rfl, h⟩
     | true =>
       simp only [if_true]
-      rcases produceText_spec (withObs H o) d' inp lx tt with ⟨_, hp⟩ | ⟨raw, hraw, hrest'⟩
+      rcases produceText_vspec (withObs H o) d' inp lx tt with ⟨_, hp⟩ | ⟨raw, hraw, hrest'⟩
       · exact Or.inl hp
       · rcases hrest' with ⟨_, hp⟩ | ⟨hb', hres', q1, q2⟩
         · exact Or.inl hp
